@@ -59,7 +59,7 @@ func fixedValues() []fixedValue {
 	zm := MetaSpec{ChainID: hexs(""), LastDataHash: "nil"}
 	secp := typicalSignedHeaderSpec()
 	secp.Signer = signerSecp
-	secp.H.Hashes[6] = bs(secpAddr)
+	secp.H.Hashes[6] = bs(secpAddrB())
 	return []fixedValue{
 		{"header/typical", "Header", typicalHeaderSpec()},
 		{"header/zero", "Header", zeroHeaderSpec()},
